@@ -148,6 +148,7 @@ func TestVerif_GenConsts(t *testing.T) {
 	c["streamOpened"] = int64(streamOpened)
 	c["streamClosed"] = int64(streamClosed)
 	c["streamHalfClosed"] = int64(streamHalfClosed)
+	c["streamLocalHalfClosed"] = int64(streamLocalHalfClosed)
 	c["defaultState"] = int64(defaultState)
 	c["hotRestartState"] = int64(hotRestartState)
 	c["hotRestartDoneState"] = int64(hotRestartDoneState)
